@@ -179,17 +179,18 @@ where
 
         let attribute_header = if self.is_attribute { ", attribute = true" } else { "" };
 
-        // attributes are unqualified: they carry no namespace prefix
+        // attributes are unqualified: they carry no namespace prefix.
+        // The XML name is written as an escaped string literal: it is data, whatever characters it holds
         if let Some(tns) = self.target_namespace.as_ref().filter(|_| !self.is_attribute) {
             writeln!(
                 writer,
-                "    #[yaserde(prefix = \"{}\", rename = \"{}\"{attribute_header})]",
+                "    #[yaserde(prefix = \"{}\", rename = {:?}{attribute_header})]",
                 tns.abbreviation, self.xml_name
             )?;
         } else {
             writeln!(
                 writer,
-                "    #[yaserde(rename = \"{}\"{attribute_header})]",
+                "    #[yaserde(rename = {:?}{attribute_header})]",
                 self.xml_name
             )?;
         }
